@@ -200,13 +200,10 @@ def scrub (s : List Nat) : List Nat := s.map fun c => if illegalXml c then 32 el
 
 /-- The common tail of the CSV and XLSX branches once `value` is a `str`:
 `value.encode(UTF_8)` (only `UnicodeDecodeError` is caught, so a lone surrogate escapes as
-`UnicodeEncodeError`), back to `str`, `value[0] == "="` (IndexError on the empty string),
-the leading space, the scrub. -/
+`UnicodeEncodeError`), back to `str`, `value.startswith("=")` ⇒ one leading space, the scrub. -/
 def sheetTail (s : List Nat) : Py PyObj :=
   if s.any isSurrogate then .error .unicodeError
-  else match s with
-    | [] => .error .indexError
-    | c :: _ => .ok (.str (scrub (if c = 61 then 32 :: s else s)))
+  else .ok (.str (scrub (match s with | 61 :: _ => 32 :: s | _ => s)))
 
 /-- `CommitCsvExporter._write_cells`, the body of `for record_column in …` -/
 def renderCsv (enc : Enc) (c : Column) : Py PyObj :=
@@ -228,10 +225,12 @@ def renderXlsx (enc : Enc) (c : Column) : Py PyObj :=
 
 /-! ### SQLite: what is bound -/
 
-/-- `CommitSqliteExporter._write_cells`: only `bytearray` and `str` values are touched; a
-`bytes` value (what the library reports for text *and* blobs) is bound as it is. -/
+/-- `CommitSqliteExporter._write_cells`: `bytes` and `bytearray` values with a text serial type are
+decoded (bound as `str`, stored as TEXT), the others go through `memoryview` (BLOB); a `str`
+value fails (`value.decode` / `memoryview(str)`), everything else is bound as it is. -/
 def bindSqlite (enc : Enc) (c : Column) : Py PyObj :=
   match c.value with
+  | .bytes b => if textAffinity c.serialType then .ok (.str (decodeReplace enc b)) else .ok (.memoryview b)
   | .bytearray b => if textAffinity c.serialType then .ok (.str (decodeReplace enc b)) else .ok (.memoryview b)
   | .str _ =>
       -- `value.decode` on a str: AttributeError; `memoryview(str)`: TypeError; neither is UnicodeDecodeError
@@ -240,19 +239,9 @@ def bindSqlite (enc : Enc) (c : Column) : Py PyObj :=
 
 /-! ### Text: `stringify_cell_record` -/
 
-/-- `if record_column.value:` -/
-def truthy : PyObj → Bool
-  | .none => false
-  | .int i => i != 0
-  | .float b => !(b == 0 || b == 0x8000000000000000)     -- 0.0 and -0.0 are falsy, NaN is truthy
-  | .bytes b => !b.isEmpty
-  | .bytearray b => !b.isEmpty
-  | .str s => !s.isEmpty
-  | .memoryview b => !b.isEmpty
-
-/-- one element of `column_values` after `decode_str` -/
+/-- one element of `column_values` after `decode_str`: `NULL` only for `None` (`if value is not None`) -/
 def textPiece (fs : Nat → List Nat) (enc : Enc) (c : Column) : Py (List Nat) :=
-  if truthy c.value then
+  if c.value != .none then
     if textAffinity c.serialType then
       match c.value with
       | .bytes b | .bytearray b =>
@@ -491,6 +480,33 @@ def sqliteHeaders (pt : PageType) (columnDefs : List (List Nat)) (nIndexColumns 
 def sqliteTableName (internalSchemaObject : Bool) (name : List Nat) : List Nat :=
   if internalSchemaObject then cps "iso_" ++ name else name
 
+/-- `_quote_identifier(name)`: `'"' + name.replace('"', '""') + '"'` -/
+def quoteIdentifier (name : List Nat) : List Nat :=
+  [34] ++ name.flatMap (fun c => if c = 34 then [34, 34] else [c]) ++ [34]
+
+/-- `" ,".join(...)` -/
+def joinSpaceComma : List (List Nat) → List Nat
+  | [] => []
+  | [a] => a
+  | a :: rest => a ++ [32, 44] ++ joinSpaceComma rest
+
+/-- `"CREATE TABLE {} ({})".format(_quote_identifier(table_name), " ,".join(_quote_identifier(h) …))` -/
+def createTableStatement (tableName : List Nat) (headers : List (List Nat)) : List Nat :=
+  cps "CREATE TABLE " ++ quoteIdentifier tableName ++ cps " (" ++ joinSpaceComma (headers.map quoteIdentifier) ++ [41]
+
+/-- `f"INSERT INTO {_quote_identifier(table_name)} VALUES ({'?' + ', ?' * (n - 1)})"` for rows of `n ≥ 1` entries -/
+def insertStatement (tableName : List Nat) (n : Nat) : List Nat :=
+  cps "INSERT INTO " ++ quoteIdentifier tableName ++ cps " VALUES (?" ++ (List.replicate (n - 1) (cps ", ?")).flatten ++ [41]
+
+/-- XLSX sheet title: `sub(r"[\\*?:/\[\]]", "_", commit.name)` (names longer than 31 characters are
+shortened by the exporter afterwards; that part is not modelled) -/
+def sheetTitle (name : List Nat) : List Nat :=
+  name.map fun c => if c = 92 ∨ c = 42 ∨ c = 63 ∨ c = 58 ∨ c = 47 ∨ c = 91 ∨ c = 93 then 95 else c
+
+/-- CSV file name stem: spaces, double quotes and the path separator `/` become `_` -/
+def csvFileStem (name : List Nat) : List Nat :=
+  name.map fun c => if c = 32 ∨ c = 34 ∨ c = 47 then 95 else c
+
 /-- tuples handed to `executemany` for one commit, given the column count recorded at table creation -/
 def sqliteCommit (columnCount : Nat) (c : Commit) : Py (List (List PyObj)) :=
   if !c.updated then .ok []
@@ -561,46 +577,10 @@ inductive XCell where
 
 def xlsxStored : PyObj → XCell
   | .none => .empty
+  | .str [] => .empty      -- openpyxl writes an inline string without text, which reads back as an empty cell
   | .int i => .number (.int i)
   | .float b => .number (.float b)
   | .str s => .string s
   | o => .number o      -- never produced by renderXlsx
-
-/-! ### Proposed repairs (NOT the current code; kept so that the residual statements can be proved) -/
-namespace Repaired
-
-/-- `if value.startswith("="):` instead of `if value[0] == "=":` -/
-def sheetTail (s : List Nat) : Py PyObj :=
-  if s.any isSurrogate then .error .unicodeError
-  else .ok (.str (scrub (match s with | 61 :: _ => 32 :: s | _ => s)))
-
-def renderCsv (enc : Enc) (c : Column) : Py PyObj :=
-  match c.value with
-  | .bytes b => if textAffinity c.serialType then sheetTail (decodeReplace enc b) else sheetTail (bytesRepr b)
-  | .bytearray b => if textAffinity c.serialType then sheetTail (decodeReplace enc b) else sheetTail (bytearrayRepr b)
-  | .str s => if textAffinity c.serialType then .error .attributeError else sheetTail s
-  | v => .ok v
-
-/-- SQLite export: `isinstance(value, (bytes, bytearray))` — `bytes` treated like `bytearray`
-(text decoded, blobs bound through `memoryview`) -/
-def bindSqlite (enc : Enc) (c : Column) : Py PyObj :=
-  match c.value with
-  | .bytes b => if textAffinity c.serialType then .ok (.str (decodeReplace enc b)) else .ok (.memoryview b)
-  | .bytearray b => if textAffinity c.serialType then .ok (.str (decodeReplace enc b)) else .ok (.memoryview b)
-  | .str _ => if textAffinity c.serialType then .error .attributeError else .error .typeError
-  | v => .ok v
-
-/-- text export: `if value is not None` instead of `if value` -/
-def textPiece (fs : Nat → List Nat) (enc : Enc) (c : Column) : Py (List Nat) :=
-  if c.value != .none then
-    if textAffinity c.serialType then
-      match c.value with
-      | .bytes b | .bytearray b =>
-          if (decodeReplace enc b).any isSurrogate then .error .unicodeError else .ok (decodeReplace enc b)
-      | _ => .error .attributeError
-    else .ok (pyStr fs c.value)
-  else .ok (cps "NULL")
-
-end Repaired
 
 end SqliteDissect.Model.Export
